@@ -246,7 +246,12 @@ def cn_oracle(sp, q, mom, coeff, z1, z2):
     rn = float(np.sqrt(n))
     moms = [s * rn * L[:, i] for i in range(n) for s in (1.0, -1.0)]
     zs = [s * rn * np.eye(n)[j] for j in range(n) for s in (1.0, -1.0)]
-    for name, t in (("CorrelatedMomentumTransition", tr), ("IndependentMomentumTransition", ind)):
+    # the coefficient is a public attribute: a transition whose coefficient was assigned after construction
+    # (e.g. tuned between stages) must preserve the law for the coefficient it holds now
+    tr_re = mici.transitions.CorrelatedMomentumTransition(system, mom_resample_coeff=0.25 if coeff == 0.5 else 0.5)
+    tr_re.mom_resample_coeff = coeff
+    for name, t in (("CorrelatedMomentumTransition", tr), ("IndependentMomentumTransition", ind),
+                    ("CorrelatedMomentumTransition[coefficient assigned after construction]", tr_re)):
         acc = np.zeros((n, n))
         mean = np.zeros(n)
         draws = set()
